@@ -177,13 +177,21 @@ class FQN:
                         return_value = find_obj(m, name)
                         if return_value is not None:
                             return return_value
-                for attr in [
-                    a
-                    for a in parent.__dict__
-                    if not a.startswith("__")
-                    and not a.startswith("_tx_")
-                    and not callable(getattr(parent, a))
-                ]:
+                if hasattr(parent.__class__, "_tx_attrs"):
+                    # A qualified name follows containment only: it must not
+                    # be resolved through `parent` or through references.
+                    attr_names = [
+                        a.name for a in parent.__class__._tx_attrs.values() if a.cont
+                    ]
+                else:
+                    attr_names = [
+                        a
+                        for a in parent.__dict__
+                        if not a.startswith("__")
+                        and not a.startswith("_tx_")
+                        and not callable(getattr(parent, a))
+                    ]
+                for attr in attr_names:
                     obj = getattr(parent, attr)
                     if isinstance(obj, (list, tuple)):
                         for innerobj in obj:
